@@ -19,12 +19,22 @@ def landmarks(prog):
     L = Landmarks()
     L.fn, L.cfg = f, cfg
     # the line loop: the while statement driven by getline
+    READERS = ("getline", "getdelim", "fgets")
     loops = [n for n in f.walk() if n.k in ("WhileStmt", "ForStmt", "DoStmt") and n.child("cond") is not None
-             and any(c.k == "CallExpr" and c.j.get("callee") in ("getline", "getdelim", "fgets") for c in n.child("cond").walk())]
+             and any(c.k == "CallExpr" and c.j.get("callee") in READERS for c in n.child("cond").walk())]
+    if len(loops) != 1:
+        # the read may sit in a helper called from the condition (its body is attached to the loop by the virtual inlining):
+        # the line loop is then the outermost loop that contains both a line read and the store() calls
+        loops = [n for n in f.walk() if n.k in ("WhileStmt", "ForStmt", "DoStmt") and not any(a.k in ("WhileStmt", "ForStmt", "DoStmt") for a in n.ancestors())
+                 and any(c.k == "CallExpr" and c.j.get("callee") in READERS for c in n.walk())
+                 and any(c.k == "CallExpr" and c.j.get("callee") == STORE for c in n.walk())]
     if len(loops) != 1:
         raise Inconclusive("read_file: expected one getline-driven loop, found %d" % len(loops))
     L.loop = loops[0]
-    gl = [c for c in L.loop.child("cond").walk() if c.k == "CallExpr" and c.j.get("callee") in ("getline", "getdelim", "fgets")][0]
+    in_cond = [c for c in L.loop.child("cond").walk() if c.k == "CallExpr" and c.j.get("callee") in READERS]
+    body0 = L.loop.child("body")
+    gl = (in_cond or [c for c in L.loop.walk() if c.k == "CallExpr" and c.j.get("callee") in READERS and not (body0 is not None and c.within(body0))]
+          or [c for c in L.loop.walk() if c.k == "CallExpr" and c.j.get("callee") in READERS])[0]
     L.getline = gl
     a0 = gl.call_args()[0].strip()
     if a0.k == "UnaryOperator" and a0.j.get("op") == "&":
